@@ -454,7 +454,7 @@ partial def handleIO (op : String) (args : List String) (impl : Option (List Str
         let pv := impl.map fun i =>
           match i with
           | "OK" :: rest => match kv rest "final" with
-            | some x => PredHdr.c07_ok Sha.zckHash fb t d n true (x == "OK")
+            | some x => PredHdr.c07_ok Sha.zckHash fb t d n true (x == "OK") && PredHdr.c06_ok Sha.zckHash fb (x == "OK")
             | none => false
           | _ => false
         return (s!"OK first={first} final={fin}", pv)
